@@ -169,6 +169,7 @@ class Sub:
     steps_thorough: int = 50
     case_timeout: float = 60.0
     crash: str = "violation"  # or "inconclusive"
+    hang: str = "inconclusive"  # "violation": a StepBudgetExceeded escaping run() means "does not return" (margin >=100x)
     wall_quick: float = 150.0  # generation stops (inconclusive, never an alarm) after this
     wall_thorough: float = 900.0
 
@@ -248,8 +249,11 @@ def exec_case(module, sub: Sub, desc, ctx: Ctx, stats: Stats, known: list[Findin
         stats.inconclusive["wall-timeout"] += 1
         stats.inconclusive_samples.setdefault("wall-timeout", _clip(desc))
     except StepBudgetExceeded:
-        stats.inconclusive["step-budget"] += 1
-        stats.inconclusive_samples.setdefault("step-budget", _clip(desc))
+        if sub.hang == "violation":
+            out = Violation("does-not-return:step-budget-exceeded", None)
+        else:
+            stats.inconclusive["step-budget"] += 1
+            stats.inconclusive_samples.setdefault("step-budget", _clip(desc))
     except Crash as c:
         if sub.crash == "violation":
             out = Violation(f"crash:{c.exc_type}@{c.where}", c.msg)
